@@ -164,14 +164,17 @@ where
                     .entry(v_node_index)
                     .or_default()
                     .insert(u_node_index);
-                add_to_adjacency_vec(
-                    &mut self.successors_vec,
-                    ordered_edge_v,
-                    ordered_edge_u,
-                    edge.weight,
-                    edge_already_exists,
-                    replace,
-                );
+                // a self-loop already got its (single) entry above
+                if u_node_index != v_node_index {
+                    add_to_adjacency_vec(
+                        &mut self.successors_vec,
+                        ordered_edge_v,
+                        ordered_edge_u,
+                        edge.weight,
+                        edge_already_exists,
+                        replace,
+                    );
+                }
             }
         }
 
